@@ -50,9 +50,9 @@ def kind_of(v):
         return 'err'
     if v is None:
         return 'none'
-    if isinstance(v, str):
-        return 'lab'
-    if isinstance(v, (int, float)) and not v:
+    if isinstance(v, str) or (isinstance(v, int) and not isinstance(v, bool)):
+        return 'lab'           # labels are strings or ints (programs.declared_label)
+    if isinstance(v, float) and not v:
         return 'falsy'
     return 'val'
 
